@@ -172,12 +172,15 @@ class LocalFileObjectStore(model.AbstractObjectStore):
         """
         logger.debug("Adding object %s to Local File Store ...", repr(x))
         file_name = "{}/{}.json".format(self.directory_path, self._transform_id(x.id))
-        if os.path.exists(file_name):
-            raise KeyError("Identifiable with id {} already exists in local file database".format(x.id))
-        _write_document(file_name, x)
+        # The existence check, writing the document, marking and caching the object happen within one critical
+        # section. Otherwise, another thread could add the same id concurrently or retrieve (and cache) a second local
+        # replication of the object between the creation of the document and the insertion of `x` into the cache.
         with self._object_cache_lock:
+            if os.path.exists(file_name):
+                raise KeyError("Identifiable with id {} already exists in local file database".format(x.id))
+            _write_document(file_name, x)
             self._object_cache[x.id] = x
-        self.generate_source(x)  # Set the source of the object
+            self.generate_source(x)  # Set the source of the object
 
     def discard(self, x: model.Identifiable) -> None:
         """
